@@ -26,6 +26,8 @@ Section Hub.
 
   (* does the code refresh (main.update()) inside the evaluation task after its own write?  regenerated from ports.py *)
   Variable refresh_after_write : bool.
+  (* does enable() force the evaluation of ALL expressions (not only the port's own)?  regenerated from ports.py *)
+  Variable enable_forces_all : bool.
 
   Inductive phase := Idle | Writing (v : option V) | NeedRefresh | Refreshing.
 
@@ -35,52 +37,59 @@ Section Hub.
     expr : option E;
     evq : list snap;           (* _eval_queue, oldest first *)
     ph : phase;                (* where the port's evaluation task is *)
-    forced : bool              (* in main._force_eval_expression_ports *)
+    forced : bool;             (* in main._force_eval_expression_ports *)
+    en : bool                  (* is_enabled() *)
   }.
 
   Record pass_state := { to_read : list pid; changed : list pid }.
 
   Record state := {
     ports : pid -> port;
-    all_ids : list pid;                 (* the (enabled) ports, in registry order *)
-    pass : option pass_state            (* a polling pass holds the update lock *)
+    all_ids : list pid;                 (* the registered ports, in registry order *)
+    pass : option pass_state;           (* a polling pass holds the update lock *)
+    force_all : bool                    (* main._force_eval_all_expressions *)
   }.
 
   Definition upd (f : pid -> port) (p : pid) (x : port) : pid -> port := fun q => if Nat.eqb q p then x else f q.
 
   Definition set_port (s : state) (p : pid) (x : port) : state :=
-    {| ports := upd (ports s) p x; all_ids := all_ids s; pass := pass s |}.
+    {| ports := upd (ports s) p x; all_ids := all_ids s; pass := pass s; force_all := force_all s |}.
 
-  Definition lasts (s : state) : snap := fun p => if existsb (Nat.eqb p) (all_ids s) then last (ports s p) else None.
+  (* push_eval's snapshot: the last read values of the enabled ports *)
+  Definition lasts (s : state) : snap :=
+    fun p => if existsb (Nat.eqb p) (all_ids s) && en (ports s p) then last (ports s p) else None.
 
   Inductive event :=
   | PassBegin                                  (* main.update() acquired the lock *)
   | PassRead (p : pid)                         (* read_transformed_value of p returned (echo/source driver) *)
+  | PassSkip (p : pid)                         (* p is disabled when the pass reaches it *)
   | PassEnd                                    (* handle_value_changes: push evaluations; lock released *)
   | Eval (q : pid)                             (* _eval_loop took the oldest queued snapshot and ran _eval_and_write up to its await *)
   | WriteEnd (q : pid)                         (* the driver write submitted by q's evaluation task completed *)
   | SourceSet (p : pid) (v : option V)         (* the environment changed what p's driver reads *)
-  | SetExpr (q : pid) (e : E).                 (* attr_set_expression with an accepted expression *)
+  | SetExpr (q : pid) (e : E)                  (* attr_set_expression with an accepted expression *)
+  | Enable (p : pid)
+  | Disable (p : pid).
 
   Definition mem (p : pid) (l : list pid) : bool := existsb (Nat.eqb p) l.
 
   Definition begin_refresh (x : port) : port :=
     match ph x with
-    | NeedRefresh => {| src := src x; last := last x; expr := expr x; evq := evq x; ph := Refreshing; forced := forced x |}
+    | NeedRefresh => {| src := src x; last := last x; expr := expr x; evq := evq x; ph := Refreshing; forced := forced x; en := en x |}
     | _ => x
     end.
 
   (* handle_value_changes for one port: push a snapshot when forced or when a dependency (other than itself) changed *)
-  Definition end_pass_port (L : snap) (chg : list pid) (q : pid) (x : port) : port :=
+  Definition end_pass_port (fall : bool) (L : snap) (chg : list pid) (q : pid) (x : port) : port :=
     let x1 := match ph x with
-              | Refreshing => {| src := src x; last := last x; expr := expr x; evq := evq x; ph := Idle; forced := forced x |}
+              | Refreshing => {| src := src x; last := last x; expr := expr x; evq := evq x; ph := Idle; forced := forced x; en := en x |}
               | _ => x
               end in
-    match expr x1 with
-    | None => {| src := src x1; last := last x1; expr := None; evq := evq x1; ph := ph x1; forced := false |}
+    match (if en x1 then expr x1 else None) with
+    | None => {| src := src x1; last := last x1; expr := expr x1; evq := evq x1; ph := ph x1; forced := false; en := en x1 |}
     | Some e =>
-        if forced x1 || existsb (fun d => negb (Nat.eqb d q) && mem d chg) (deps e)
-        then {| src := src x1; last := last x1; expr := expr x1; evq := evq x1 ++ [L]; ph := ph x1; forced := false |}
+        if fall || forced x1 || existsb (fun d => negb (Nat.eqb d q) && mem d chg) (deps e)
+        then {| src := src x1; last := last x1; expr := expr x1; evq := evq x1 ++ [L]; ph := ph x1; forced := false; en := en x1 |}
         else x1
     end.
 
@@ -90,16 +99,25 @@ Section Hub.
         match pass s with
         | Some _ => None
         | None => Some {| ports := fun q => begin_refresh (ports s q); all_ids := all_ids s;
-                          pass := Some {| to_read := all_ids s; changed := [] |} |}
+                          pass := Some {| to_read := all_ids s; changed := [] |}; force_all := force_all s |}
         end
     | PassRead p =>
         match pass s with
         | Some {| to_read := p' :: rest; changed := chg |} =>
-            if Nat.eqb p p' then
+            if Nat.eqb p p' then          (* enabled when the read started; it may have been disabled meanwhile *)
               let x := ports s p in
               let chg' := if veqb (src x) (last x) then chg else p :: chg in
-              Some {| ports := upd (ports s) p {| src := src x; last := src x; expr := expr x; evq := evq x; ph := ph x; forced := forced x |};
-                      all_ids := all_ids s; pass := Some {| to_read := rest; changed := chg' |} |}
+              Some {| ports := upd (ports s) p {| src := src x; last := src x; expr := expr x; evq := evq x; ph := ph x; forced := forced x; en := en x |};
+                      all_ids := all_ids s; pass := Some {| to_read := rest; changed := chg' |}; force_all := force_all s |}
+            else None
+        | _ => None
+        end
+    | PassSkip p =>
+        match pass s with
+        | Some {| to_read := p' :: rest; changed := chg |} =>
+            if Nat.eqb p p' && negb (en (ports s p)) then
+              Some {| ports := ports s; all_ids := all_ids s; pass := Some {| to_read := rest; changed := chg |};
+                      force_all := force_all s |}
             else None
         | _ => None
         end
@@ -107,23 +125,23 @@ Section Hub.
         match pass s with
         | Some {| to_read := []; changed := chg |} =>
             let L := lasts s in
-            Some {| ports := fun q => if mem q (all_ids s) then end_pass_port L chg q (ports s q) else ports s q;
-                    all_ids := all_ids s; pass := None |}
+            Some {| ports := fun q => if mem q (all_ids s) then end_pass_port (force_all s) L chg q (ports s q) else ports s q;
+                    all_ids := all_ids s; pass := None; force_all := false |}
         | _ => None
         end
     | Eval q =>
         let x := ports s q in
         match ph x, evq x, expr x with
         | Idle, sn :: rest, Some e =>
-            let x0 := {| src := src x; last := last x; expr := expr x; evq := rest; ph := Idle; forced := forced x |} in
-            match feval e sn with
+            let x0 := {| src := src x; last := last x; expr := expr x; evq := rest; ph := Idle; forced := forced x; en := en x |} in
+            match (if existsb (fun d => negb (en (ports s d))) (deps e) then OErr else feval e sn) with
             | OErr => Some (set_port s q x0)
             | OVal v =>
                 match coerce q v with
                 | OErr => Some (set_port s q x0)
                 | OVal v' =>
                     if veqb v' (last x) then Some (set_port s q x0)
-                    else Some (set_port s q {| src := src x; last := last x; expr := expr x; evq := rest; ph := Writing v'; forced := forced x |})
+                    else Some (set_port s q {| src := src x; last := last x; expr := expr x; evq := rest; ph := Writing v'; forced := forced x; en := en x |})
                 end
             end
         | _, _, _ => None
@@ -133,18 +151,29 @@ Section Hub.
         match ph x with
         | Writing v =>
             Some (set_port s q {| src := v; last := last x; expr := expr x; evq := evq x;
-                                  ph := if refresh_after_write then NeedRefresh else Idle; forced := forced x |})
+                                  ph := if refresh_after_write then NeedRefresh else Idle; forced := forced x; en := en x |})
         | _ => None
         end
     | SourceSet p v =>
         let x := ports s p in
         match expr x with
-        | None => Some (set_port s p {| src := v; last := last x; expr := None; evq := evq x; ph := ph x; forced := forced x |})
+        | None => Some (set_port s p {| src := v; last := last x; expr := None; evq := evq x; ph := ph x; forced := forced x; en := en x |})
         | Some _ => None
         end
     | SetExpr q e =>
         let x := ports s q in
-        Some (set_port s q {| src := src x; last := last x; expr := Some e; evq := evq x; ph := ph x; forced := true |})
+        Some (set_port s q {| src := src x; last := last x; expr := Some e; evq := evq x; ph := ph x; forced := true; en := en x |})
+    | Enable p =>
+        let x := ports s p in
+        if en x then Some s
+        else
+          let s1 := set_port s p {| src := src x; last := last x; expr := expr x; evq := evq x; ph := ph x;
+                                    forced := match expr x with Some _ => true | None => forced x end; en := true |} in
+          Some {| ports := ports s1; all_ids := all_ids s1; pass := pass s1;
+                  force_all := if enable_forces_all then true else force_all s |}
+    | Disable p =>
+        let x := ports s p in
+        Some (set_port s p {| src := src x; last := last x; expr := expr x; evq := evq x; ph := ph x; forced := forced x; en := false |})
     end.
 
   Fixpoint run (s : state) (tr : list event) : option state :=
@@ -155,17 +184,19 @@ Section Hub.
 
   (* ---------------- what the property talks about *)
   Definition quiescent (s : state) : Prop :=
-    pass s = None /\
+    pass s = None /\ force_all s = false /\
     forall p, In p (all_ids s) ->
       evq (ports s p) = [] /\ ph (ports s p) = Idle /\ forced (ports s p) = false
-      /\ veqb (src (ports s p)) (last (ports s p)) = true.
+      /\ (en (ports s p) = true -> veqb (src (ports s p)) (last (ports s p)) = true).
 
   (* the driver of q holds, and the hub reports, the coerced value of q's expression over the current values *)
+  Definition dep_off (s : state) (e : E) : bool := existsb (fun d => negb (en (ports s d))) (deps e).
+
   Definition follows (s : state) (q : pid) : Prop :=
-    match expr (ports s q) with
-    | None => True
+    match (if en (ports s q) then expr (ports s q) else None) with
+    | None => True                                       (* no expression, or the port is disabled *)
     | Some e =>
-        match feval e (lasts s) with
+        match (if dep_off s e then OErr else feval e (lasts s)) with
         | OErr => True                                   (* evaluation error: the port keeps its value; the property is silent *)
         | OVal v =>
             match coerce q v with
@@ -190,6 +221,8 @@ Arguments Build_port {V E}.
 Arguments ports {V E} s.
 Arguments all_ids {V E} s.
 Arguments pass {V E} s.
+Arguments force_all {V E} s.
+Arguments en {V E} p.
 Arguments Build_state {V E}.
 Arguments PassBegin {V E}.
 Arguments PassRead {V E} p.
@@ -198,3 +231,6 @@ Arguments Eval {V E} q.
 Arguments WriteEnd {V E} q.
 Arguments SourceSet {V E} p v.
 Arguments SetExpr {V E} q e.
+Arguments PassSkip {V E} p.
+Arguments Enable {V E} p.
+Arguments Disable {V E} p.
